@@ -30,9 +30,9 @@ PID = "C15"
 # indices into CoordConv!PythagoreanPoints (= geom.BASE_POINTS), 1-based; CoordConv!TestVectors
 TIERS = {
     "quick": dict(
-        paths=[dict(MaxDepth=4, PointIdx={1}, Octants={1, 4, 6, 7}, VecIdx={1}),
-               dict(MaxDepth=3, PointIdx={5, 2}, Octants={2, 3, 5, 8}, VecIdx={5})],
-        matrix_points=geom.octant_points(geom.SMALL_POINTS[:4])),
+        paths=[dict(MaxDepth=4, PointIdx={1, 5}, Octants={1, 4, 6, 7}, VecIdx={1}),
+               dict(MaxDepth=3, PointIdx={2, 3, 6}, Octants={2, 3, 5, 8}, VecIdx={5})],
+        matrix_points=geom.octant_points(geom.SMALL_POINTS)),
     "thorough": dict(
         paths=[dict(MaxDepth=5, PointIdx={5}, Octants={1, 4, 6, 7}, VecIdx={1}),
                dict(MaxDepth=4, PointIdx={1, 2, 3, 4, 6, 7, 8, 9, 10, 11, 12}, Octants={2, 7}, VecIdx={5}),
